@@ -7,7 +7,9 @@
     the fallback function (return or panic), then exactly one of fallback-success / fallback-failure.
   What `c.run` returns is decided by the script as in the code: nil unless the run function failed (a nil return that was
   late is a TIMEOUT for the circuit and still nil for the caller), the circuit-open / limit error for a refused call.
-  The fallback's settings (limit, Disabled) are static here.
+  Before all that Execute reads the kill switch: `Disabled` → the run function is called directly, as if there were no
+  circuit (no admission, no gauge, no events, no fallback; its error or panic goes straight to the caller).
+  The fallback's settings (limit, Disabled) and the kill switch are static here.
 -/
 import CircuitModel.Conc.RunDyn
 namespace CM.Conc.Exec
@@ -35,6 +37,8 @@ inductive Out where
   deriving Repr, DecidableEq
 
 inductive Pc where
+  | gate                         -- Execute's first line: CircuitBreaker.Disabled.Get()
+  | passthru                     -- Disabled: runFunc(ctx) directly
   | running                      -- inside c.run / OpenCircuit / CloseCircuit: the Conc/Run thread
   | decide (r : Run.Res)
   | loadDisabled
@@ -57,7 +61,9 @@ structure Shared where
   fbGauge : Int := 0
   fbLimit : Int
   fbDisabled : Bool := false
+  disabled : Bool := false             -- CircuitBreaker.Disabled
   fbEvents : List (Nat × FbEv) := []
+  direct : List Nat := []              -- ghost: threads whose run function was called directly (pass-through)
   deriving Repr, DecidableEq
 
 /-- does `c.run` hand Execute a non-nil error, and is it a bad request? -/
@@ -77,6 +83,9 @@ def step (tid : Nat) (s : Shared) : Local → Option (Shared × Local)
     let goto (pc : Pc) : Option (Shared × Local) := some (s, .call l fb pc)
     let ev (e : FbEv) (pc : Pc) : Option (Shared × Local) := some ({ s with fbEvents := s.fbEvents ++ [(tid, e)] }, .call l fb pc)
     match pc with
+    | .gate => if s.disabled then goto .passthru else goto .running
+    | .passthru =>
+      some ({ s with direct := s.direct ++ [tid] }, .call l fb (.done (if sc.panics then .runPanic else if sc.failed then .runErr else .ok)))
     | .running =>
       (match l.pc with
        | .done r => goto (.decide r)
@@ -107,14 +116,14 @@ inductive Job where
   deriving Repr, DecidableEq
 
 def startLocal : Job → Local
-  | .exec sc fb => .call { job := .call sc, pc := Run.startPc (.call sc) } fb .running
+  | .exec sc fb => .call { job := .call sc, pc := Run.startPc (.call sc) } fb .gate
   | .open => .call { job := .open, pc := Run.startPc .open } {} .running
   | .close => .call { job := .close, pc := Run.startPc .close } {} .running
   | .reconfigure fo fc m => .op fo fc m 0
 
-def init (forceOpen forcedClosed isOpen : Bool) (limit fbLimit : Int) (fbDisabled : Bool) (jobs : List Job) : Config Shared Local :=
+def init (forceOpen forcedClosed isOpen : Bool) (limit fbLimit : Int) (fbDisabled : Bool) (jobs : List Job) (disabled : Bool := false) : Config Shared Local :=
   { shared := { r := { t := { forceOpen := forceOpen, forcedClosed := forcedClosed, isOpen := isOpen }, limit := limit },
-                fbLimit := fbLimit, fbDisabled := fbDisabled },
+                fbLimit := fbLimit, fbDisabled := fbDisabled, disabled := disabled },
     locals := jobs.map startLocal }
 
 def allDone (c : Config Shared Local) : Bool :=
@@ -126,7 +135,7 @@ def outOf (c : Config Shared Local) (i : Nat) : Option Out :=
 /-- what `c.run` returned for thread `i`, once it has -/
 def runResOf (c : Config Shared Local) (i : Nat) : Option Run.Res :=
   match c.locals[i]? with
-  | some (.call l _ pc) => (match pc, l.pc with | .running, _ => none | _, .done r => some r | _, _ => none)
+  | some (.call l _ pc) => (match pc, l.pc with | .running, _ => none | .gate, _ => none | .passthru, _ => none | _, .done r => some r | _, _ => none)
   | _ => none
 
 /-- fallback events delivered to the collectors for thread `i` -/
@@ -139,6 +148,9 @@ def runEventsOf (c : Config Shared Local) (i : Nat) : List Run.Ev :=
   (c.shared.r.events.filter fun e => e.1 == i && e.2 != .invoked && e.2 != .vetoed).map (·.2)
 def runInvokedCount (c : Config Shared Local) (i : Nat) : Nat :=
   (c.shared.r.events.filter fun e => e.1 == i && e.2 == .invoked).length
+
+/-- how often thread `i`'s run function was called directly (pass-through) -/
+def directCount (c : Config Shared Local) (i : Nat) : Nat := (c.shared.direct.filter (· == i)).length
 
 /-- callers inside a fallback function -/
 def fbInFlight (c : Config Shared Local) : Nat :=
